@@ -55,10 +55,9 @@ def class_query(prefix, cls, keying, dec, nlen=16, counter=0, altlen=7, altnull=
 def c17_queries(tier):
     qs = []
     for cls in range(12):
-        for keying in (0, 1, 2, 3, 4) + ((5,) if 6 <= cls <= 8 else ()):
+        for keying in (0, 1, 2, 3, 4, 6, 7) + ((5,) if 6 <= cls <= 8 else ()):
             for dec in ((0, 1) if (tier == "thorough" or keying in (1, 2)) else (0,)):
-                if 6 <= cls <= 8 and tier == "quick" and not (keying in (1, 3, 5) and dec == 0 or (keying == 2 and dec == 1 and cls == 6)):
-                    continue
+                pass
                 qs.append(class_query("cpp", cls, keying, dec, altlen=(KLEN(cls) + 1 if dec else 7)))
         qs.append(class_query("cpp", cls, 3, 0, altnull=1)) if not (6 <= cls <= 8 and tier == "quick" and cls != 6) else None
     return [q for q in qs if q is not None]
